@@ -327,7 +327,13 @@ func resSweep(rp *runner.Report) {
 		vals[i] = reflect.New(mkType(i)).Interface()
 	}
 	present := make([]bool, limit)
-	check := func(where string) bool {
+	check := func(where string) (ok bool) {
+		defer func() {
+			if x := recover(); x != nil {
+				viol("res:sweep-panic", fmt.Sprintf("%s: Has/Get panicked: %v", where, x))
+				ok = false
+			}
+		}()
 		for k := 0; k < limit; k++ {
 			evals++
 			if w.Resources().Has(ids[k]) != present[k] {
@@ -343,14 +349,20 @@ func resSweep(rp *runner.Report) {
 		return true
 	}
 	for i := 0; i < limit; i++ {
-		w.Resources().Add(ids[i], vals[i])
+		if pv := catchP(func() { w.Resources().Add(ids[i], vals[i]) }); pv != nil {
+			viol("res:sweep-add-panic", fmt.Sprintf("adding resource number %d of %d panicked: %v", i, limit, pv))
+			return
+		}
 		present[i] = true
 		if !check(fmt.Sprintf("after adding resource %d", i)) {
 			return
 		}
 	}
 	for i := 0; i < limit; i += 3 {
-		w.Resources().Remove(ids[i])
+		if pv := catchP(func() { w.Resources().Remove(ids[i]) }); pv != nil {
+			viol("res:sweep-remove-panic", fmt.Sprintf("removing resource number %d panicked: %v", i, pv))
+			return
+		}
 		present[i] = false
 		if !check(fmt.Sprintf("after removing resource %d", i)) {
 			return
